@@ -69,8 +69,8 @@ func (sc *SC) pushedValueIsTokData(arg ssa.Value) bool {
 func runC09(c *Ctx) {
 	R := c.R
 	R.Rule("C09.R1", "stack/flag invariant is inductive: on every back edge of the token loop, (pending-close flag) ⇔ (pending-close stack non-empty) is re-established: unchanged stack ⇒ unchanged flag; append ⇒ flag true; shrink-by-one ⇒ flag false exactly when the shrunk stack is empty; no other stack update exists")
+	R.Rule("C09.R2c", "completeness: every StartTag path on which an admitted element is left without attributes and is not allowed bare pushes its name; every EndTag path (past the script/style gate) on which the pending flag is set and token.Data equals the top of the stack pops it")
 	R.Rule("C09.R2", "push/pop conditions: a push happens only in the StartTag arm, pushes token.Data, on an edge whose path condition implies 'no attribute survived ∧ ¬allowNoAttrs(token.Data)'; a pop happens only in the EndTag arm under flag ∧ token.Data == top of stack; no tag write is reachable after a push or a pop in the same iteration")
-	R.Rule("C09.R2c", "completeness: every StartTag path on which the element is admitted, past the script/style gate, has no surviving attribute and is not allowed bare, pushes its name (otherwise the matching end tag would be emitted alone, or pop an outer entry)")
 	R.Rule("C09.R3", "every drop has a tabled reason: a StartTag/SelfClosingTag iteration that writes no tag is disallowed, gated, dropped for lack of attributes, or inside skipped content; an EndTag iteration that writes no tag is disallowed, gated, popped, or inside skipped content — the same admission predicate (element table ∨ element pattern) in both arms")
 	R.Rule("C09.R4", "pushes are matchable: the push edge is reached only for elements that can have an end tag (a void-element test on token.Data guards it)")
 	R.Rule("C09.R5", "the SelfClosingTag arm never pushes and never pops")
@@ -374,11 +374,15 @@ func runC09(c *Ctx) {
 				ok, cex := as.q.Holds(es, pa.Or(wrote, pa.Not(allowedStart), pa.Not(as.gatepass), lacks, skipOut, skipCur))
 				R.Check(ok, "C09.R3", key, cons, pos, "tag written or dropped for a tabled reason", "a self-closing tag can be dropped for no tabled reason: ["+cex+"]")
 			case "EndTag":
+				if !model.IsShrinkByOne(s, lv.Stack) && len(topEq) > 0 {
+					okP, cexP := as.q.Holds(es, pa.Not(pa.And(pend, orAtoms(topEq), as.gatepass)))
+					R.Check(okP, "C09.R2c", key+":pop", cons, pos, "no pop needed on this edge", "an end tag that equals the top of the pending-close stack (past the script/style gate) can leave the arm without popping it: the stale entry then swallows a later end tag of that name or hides the enclosing entries: ["+cexP+"]")
+				}
 				ok, cex := as.q.Holds(es, pa.Or(wrote, as.disallowed, pa.Not(as.gatepass), pa.AtomF(evPop), skipOut, skipCur))
 				R.Check(ok, "C09.R3", key, cons, pos, "tag written or dropped for a tabled reason", "an end tag can be dropped for no tabled reason: ["+cex+"]")
 			}
 		}
-		R.Role("C09.R3", "back edges of arm "+arm, n, 3)
+		R.Role("C09.R3", "back edges of arm "+arm, n, 1)
 	}
 }
 
